@@ -445,6 +445,13 @@ class World:
             return {'status': 'NoSuchRef', 'trace': [], 'ops': []}
         if fault is None and ev.get('fault'):
             fault = dict(ev['fault'])            # a fault scripted in the history itself (replayable)
+            if fault.get('mode') == 'third_party' and 'action' not in fault and fault.get('branch'):
+                def _tp(w, name=fault['branch']):
+                    frm = sorted(n for n in w.refs() if n.startswith('development/'))[0]
+                    w.apply({'e': 'new_branch', 'branch': name, 'from': frm, 'label': 'tp_' + name.replace('/', '_')})
+                    return {name: w.refs().get(name)}
+                fault['action'] = _tp
+                fault.setdefault('kind', 'new_branch')
         self.trace, self.ops, self.fault = [], [], fault
         self.cmd_count = 0
         self._reset_stages()
@@ -456,6 +463,7 @@ class World:
         self.jobs_run += 1
         return {'status': job.status or ('OK' if job.done else 'NOTDONE'), 'details': job.details,
                 'fault_fired': bool(fault and fault.get('fired')), 'fault_command': (fault or {}).get('command'),
+                'fault_used': fault,
                 'trace': self.trace, 'ops': self.ops, 'done': job.done, 'stages': list(self.stages.roots),
                 'worker_clean': 'current job' not in b.status and len(b.tasks_done) >= before}
 
